@@ -12,7 +12,7 @@
        if it does not (two different widths, incompatible usages);
      - ev is only Any: d = Some [Any];  ev is empty: no data (`type_of` answers Any). *)
 From SLX Require Import Base VectorMap DisjointSet gen.Constants gen.WordUseTable TypeExpr Merge Unify.
-From SLX Require Import proofs.UnifyProofs.
+From SLX Require Import UnifyOrder proofs.UnifyProofs proofs.UnifyOrderProofs proofs.UnifyCtorKept.
 Open Scope N_scope.
 
 Theorem C15_unify_words_join : forall fuel o st s n x, orders_ok o -> packed_free st = true ->
@@ -46,4 +46,28 @@ Example C15_unify_hyps_met :
   end.
 Proof. split; [reflexivity|]. vm_compute. split; reflexivity. Qed.
 
+(* Constructed types keep their structure.  On the order-free fragment (no packed encodings; the congruence closure `CC` of
+   declared and component equalities is homogeneous: mappings meet mappings, arrays of one length meet each other, ...), for
+   EVERY iteration order and fuel: if a piece of constructed evidence e (a mapping, a fixed or a dynamic array) was given for
+   ANY variable x, every variable y of x's class resolves to exactly one type t, never a conflict, of e's constructor (and
+   length), whose components lie in the classes of e's components (`ctor_match (CC st) t e`) -- "mappings and arrays keep
+   their structure with unified components". *)
+Theorem C15_unify_ctor_kept : forall st o fuel s n x e y, order_free st = true -> orders_ok o -> unify fuel o st = Ok (s, n) ->
+  In (x, e) (ev_list st) -> is_ctor e = true -> CC st x y ->
+  exists s' t, ds_get_data iset s y = Ok (s', Some [t]) /\ ctor_match (CC st) t e /\ is_conflict t = false.
+Proof. exact unify_ctor_kept_proof. Qed.
+
+(* non-vacuity: two mappings meet through an equality; the class resolves to a mapping whose key class holds 2 and 3 *)
+Example C15_unify_ctor_hyps_met :
+  let st := mk_tstate [(0, [Equal 1; Mapping 2 0]); (1, [Equal 0; Mapping 3 4]); (2, [Word (Some 8) UBool]);
+                       (3, [Word (Some 160) UAddress]); (4, []); (5, [DynamicArray 2; DynamicArray 3])] 6 in
+  order_free st = true /\ In (0, Mapping 2 0) (ev_list st) /\ is_ctor (Mapping 2 0) = true /\
+  same_in (part_of (cc st)) 0 1 = true /\
+  match unify 8 orders_sorted st with
+  | Ok (s, _) => match ds_get_data iset s 1 with Ok (_, Some [Mapping _ _]) => True | _ => False end
+  | _ => False
+  end.
+Proof. vm_compute. repeat split; auto. Qed.
+
 Print Assumptions C15_unify_words_join.
+Print Assumptions C15_unify_ctor_kept.
